@@ -213,6 +213,43 @@ def w_inverse(ctx, rng, i):
                     ctx.fail("double_inverse_does_not_restore_source_and_target", cls=type(t).__name__)
         except Exception as e:
             ctx.fail("double_inverse_unusable", cls=type(t).__name__, mech=type(e).__name__)
+    # the inverse is an object of its own: retargeting the alignment afterwards does not change the inverse taken before
+    # (it still undoes the map it was taken from), nor the other way round
+    from menpo.transform.base import Alignment as _Al
+    if isinstance(t, _Al) and isinstance(t, mt.Homogeneous) and isinstance(inv, mt.Homogeneous) and rng.random() < 0.5:
+        with taps.quiet():
+            t_before = t.copy()
+            h_inv_before = np.array(inv.h_matrix, dtype=float, copy=True)
+            t.set_target(ms.PointCloud(t.target.points + rng.normal(scale=0.8, size=t.target.points.shape)))
+        ctx.tap("inverse_independent_of_its_origin", "calls"); ctx.tap("inverse_independent_of_its_origin", "checked")
+        x = tx.probe(rng, d, 6)
+        if tx.maxdiff(np.asarray(inv.h_matrix, dtype=float), h_inv_before) > 0 or tx.maxdiff(inv.apply(t_before.apply(x)), x) > 1e-8 * tx.BOX:
+            ctx.fail("retargeting_the_alignment_changed_the_inverse_taken_before", cls=type(t).__name__)
+        if isinstance(inv, _Al):
+            with taps.quiet():
+                h_t = np.array(t.h_matrix, dtype=float, copy=True)
+                inv.set_target(ms.PointCloud(inv.target.points + rng.normal(scale=0.8, size=inv.target.points.shape)))
+            if tx.maxdiff(np.asarray(t.h_matrix, dtype=float), h_t) > 0:
+                ctx.fail("retargeting_the_inverse_changed_the_alignment_it_was_taken_from", cls=type(t).__name__)
+        inv = t.pseudoinverse()
+    # the vector form: the parameters of the inverse of the transform *with the given parameters*
+    if isinstance(t, mt.Homogeneous) and hasattr(t, "pseudoinverse_vector") and rng.random() < 0.4:
+        try:
+            v0 = np.array(t.as_vector(), dtype=float)
+        except Exception:
+            v0 = None
+        if v0 is not None and v0.size and not kind.startswith("Int"):
+            for rel in (0.0, 1e-7, 3e-6, 0.05):
+                v = v0 * (1.0 + rel) + rel * 1e-3
+                try:
+                    with taps.quiet():
+                        expect = np.asarray(t.from_vector(v).pseudoinverse().as_vector(), dtype=float)
+                    got = np.asarray(t.pseudoinverse_vector(v), dtype=float)
+                except Exception:
+                    break
+                ctx.tap("pseudoinverse_vector", "calls"); ctx.tap("pseudoinverse_vector", "checked")
+                if got.shape != expect.shape or tx.maxdiff(got, expect) > 1e-9 * max(1.0, float(np.abs(expect).max())):
+                    ctx.fail("pseudoinverse_vector_is_not_the_inverse_of_the_given_parameters", cls=type(t).__name__, mech="nearby_vector" if 0 < rel < 1e-4 else "other", err=tx.maxdiff(got, expect))
     # the inverse of a homogeneous alignment is a working alignment of its own: retargeted, it is the fit from *its* source
     from menpo.transform.base import Alignment
     if isinstance(inv, Alignment) and isinstance(inv, mt.Homogeneous) and rng.random() < 0.5:
